@@ -245,7 +245,7 @@ class Run:
         rc, nv = 0, 0
         c = self.proof_cov(); c.update(cov); cov = c
         cov['trusted_base'] = trusted_base
-        for v in self.violations[:8]:
+        for v in self.violations[:int(os.environ.get('VERIF_MAX_REPLAYS', '8'))]:
             p = write_replay(pid, 'violation_%d.json' % nv, v); nv += 1
             print('VIOLATION property=%s replay=%s' % (pid, p)); rc = 1
         if not self.violations and (self.proof_broken or self.corr_broken):
